@@ -45,6 +45,12 @@ type vc02FaultDS struct {
 	nCounted int
 	lastFail string   // kind of the last failed commit ("tombs" | "elems" | "heads"), reset by the caller
 	log      []string // kinds of counted commits, "!" appended when failed
+	batches  []vc02BatchRec // successful tombs / elems commits with their keys, in commit order
+}
+
+type vc02BatchRec struct {
+	kind string
+	keys []string
 }
 
 func newVC02FaultDS(ns string, failAt []int) *vc02FaultDS {
@@ -75,10 +81,12 @@ type vc02FaultBatch struct {
 	d    *vc02FaultDS
 	b    ds.Batch
 	kind string
+	keys []string
 }
 
 func (b *vc02FaultBatch) note(k ds.Key) {
 	s := k.String()
+	b.keys = append(b.keys, s)
 	switch {
 	case strings.HasPrefix(s, b.d.ns+"/s/t/"):
 		b.kind = "tombs"
@@ -100,6 +108,9 @@ func (b *vc02FaultBatch) Commit() error {
 			b.d.log = append(b.d.log, b.kind+"!")
 		} else {
 			b.d.log = append(b.d.log, b.kind)
+			if b.kind != "heads" {
+				b.d.batches = append(b.d.batches, vc02BatchRec{b.kind, b.keys})
+			}
 		}
 		b.d.mu.Unlock()
 		if fail {
